@@ -74,17 +74,30 @@ def run(chk):
     thorough = chk.tier == "thorough"
     model_check(chk, [("Neg_Dedisp_cropsign.cfg", "RealignDecl"), ("Neg_Dedisp_nostart.cfg", "StartAdvance")])
     gen_replay(chk, rnd)
-    n_law, n_inc = (20000, 10000) if thorough else (1800, 1100)
+    n_law, n_inc, n_lseq, n_iseq = (16000, 7000, 1500, 800) if thorough else (1300, 700, 150, 90)
     cases = [D.gen_law_case(rnd) for _ in range(n_law)]
     for i in range(n_inc):
         c = D.gen_incoh_case(rnd, i)
         c["xcheck"] = i % 200 == 0
         cases.append(c)
+    # sessions: one DM object stepped in place between calls; one signal object dedispersed several times
+    cases += [D.gen_lawseq_case(rnd) for _ in range(n_lseq)]
+    cases += [D.gen_incohseq_case(rnd, i) for i in range(n_iseq)]
     events = D.collect(cases, chk)
     D.judge(chk, events, cases, "C06", jobs=14, timeout=6000 if chk.tier == "thorough" else 1500)
     for e in [e for e in events if e["ev"] == "incoh"][:2] + [e for e in events if e["ev"] in ("sdelay", "chain")][:2]:
         chk.sample(e["_desc"])
     inc = [e for e in events if e["ev"] == "incoh"]
+    chk.notes["sessions"] = {"law_one_dm_object": n_lseq, "incoh_one_signal_object": n_iseq,
+                             "dm_ops": {}}
+    for c in cases:
+        for op, _ in c.get("steps", []):
+            chk.notes["sessions"]["dm_ops"][op] = chk.notes["sessions"]["dm_ops"].get(op, 0) + 1
+    dk = [cases[e["_case"]].get("base", cases[e["_case"]]) for e in inc]
+    chk.notes["incoh_dask_freq_chunks"] = {
+        "numpy": sum(1 for c in dk if not c.get("dask")), "dask_whole": sum(1 for c in dk if c.get("dask") and not c.get("fchunks")),
+        "dask_ones": sum(1 for c in dk if c.get("fchunks") and max(c["fchunks"]) == 1),
+        "dask_chunks_gt1_several": sum(1 for c in dk if c.get("fchunks") and max(c["fchunks"]) > 1 and len(c["fchunks"]) > 1)}
     chk.notes["incoh_by_class"] = {c: sum(1 for e in inc if e["cls"] == c) for c in D.RADIO}
     chk.notes["incoh_outcomes"] = {"samples": sum(1 for e in inc if e["outlen"] > 0),
                                    "empty": sum(1 for e in inc if not e["err"] and e["outlen"] == 0),
